@@ -14,7 +14,17 @@ import tucan.canonicalization as tc
 import tucan.serialization as tser
 import tucan.graph_utils as tgu
 from tucan.parser import parser as tparser
-from project import project, TAG, ETAG
+from project import project as _project, TAG, ETAG
+
+
+def project(g, **kw):
+    """the projection never raises: whatever is not a molecule graph with labels 0..n-1 has no record"""
+    try:
+        if not isinstance(g, nx.Graph):
+            return {"bad": "not a networkx graph: %r" % type(g).__name__}
+        return _project(g, **kw)
+    except Exception as ex:  # noqa
+        return {"bad": "projection failed: %s: %s" % (type(ex).__name__, ex)}
 
 _tagctr = itertools.count(1)
 
@@ -101,7 +111,10 @@ class Session:
         if tag:
             tag_graph(g)
         k = self._new(g)
-        self.ev.append({"op": "input", "obj": k, "g": project(g)})
+        pr = project(g)
+        if "bad" in pr:
+            raise RuntimeError("driver produced an object the projection cannot state: " + pr["bad"])
+        self.ev.append({"op": "input", "obj": k, "g": pr})
         return k
 
     def derive(self, src, g2, perm, kind="relabel"):
@@ -158,6 +171,9 @@ class Session:
             self.ev.append({"op": "raised", "call": "serialize_molecule", "arg": k,
                             "clause": "C15:serialize_molecule-raised-" + type(ex).__name__, "n": before.get("n", 0)})
             return None
+        if not isinstance(s, str):
+            self.ev.append({"op": "raised", "call": "serialize_molecule", "arg": k, "clause": "C05:serialize_molecule-did-not-return-a-string"})
+            return None
         after = project(g, keep_scratch=False)
         if "bad" in after:
             self.ev.append({"op": "raised", "call": "serialize_molecule", "arg": k,
@@ -182,6 +198,8 @@ class Session:
             p = tparser.graph_from_tucan(s)
         except BaseException as ex:  # noqa
             e["exc"] = type(ex).__name__
+            if of is not None:
+                e["of"] = of
             self.ev.append(e)
             return None
         pr = project(p)
@@ -348,7 +366,11 @@ def witness_between(g, h, vf2_limit=400):
         pass
     if n <= vf2_limit:
         gm = nx.algorithms.isomorphism.GraphMatcher(g, h, node_match=lambda x, y: _col(x) == _col(y))
-        if gm.is_isomorphic():
+        try:
+            iso = guarded(gm.is_isomorphic, 30)
+        except CallTimeout:
+            return None, False          # undecided within the budget (highly symmetric graphs): nothing is claimed
+        if iso:
             m = gm.mapping
             return [m[a] for a in range(n)], True
         return None, True           # VF2 is complete: there is no colour-preserving bijection
